@@ -1,0 +1,77 @@
+//go:build verif
+
+package matcher
+
+// Contracts checked by /verif (contract-based deductive verification).
+// This file is comment-only; it is compiled only with -tags=verif.
+
+//@ import strings "strings"
+
+// ---- C47: header matchers ---------------------------------------------------------------------------
+//
+// Every header matcher evaluates its predicate on the comma-joined values of the
+// key and XORs it with invert -- but only when the key is present: an absent
+// header never matches (present-matcher: matches iff presence equals what was
+// asked for).
+
+//@ func valueFromMD
+//@   prop C47
+//@   assert at call Join#1 sameslice(arg0, md[key]) && arg1 == "," && haskey(md, key)
+//@   ensures result1 == haskey(md, key) && implies(!result1, result0 == "")
+
+//@ func (*HeaderExactMatcher).Match
+//@   prop C47
+//@   assert at call valueFromMD#1 arg1 == hem.key
+//@   assert at return 1 !ok && !result
+//@   assert at return 2 ok && result == ((v == hem.exact) != hem.invert)
+
+//@ func (*HeaderPrefixMatcher).Match
+//@   prop C47
+//@   assert at call valueFromMD#1 arg1 == hpm.key
+//@   assert at return 1 !ok && !result
+//@   assert at return 2 ok && result == (strings.HasPrefix(v, hpm.prefix) != hpm.invert)
+
+//@ func (*HeaderSuffixMatcher).Match
+//@   prop C47
+//@   assert at call valueFromMD#1 arg1 == hsm.key
+//@   assert at return 1 !ok && !result
+//@   assert at return 2 ok && result == (strings.HasSuffix(v, hsm.suffix) != hsm.invert)
+
+//@ func (*HeaderContainsMatcher).Match
+//@   prop C47
+//@   assert at call valueFromMD#1 arg1 == hcm.key
+//@   assert at call Contains#1 arg0 == v && arg1 == hcm.contains && ok
+//@   assert at return 1 !ok && !result
+//@   assert at return 2 ok && result == ((lastret("Contains") == 1) != hcm.invert)
+
+//@ func (*HeaderRegexMatcher).Match
+//@   prop C47
+//@   assert at call valueFromMD#1 arg1 == hrm.key
+//@   assert at call MatchString#1 arg0 == hrm.re && arg1 == v && ok
+//@   assert at return 1 !ok && !result
+//@   assert at return 2 ok && result == ((lastret("MatchString") == 1) != hrm.invert)
+
+//@ func (*HeaderStringMatcher).Match
+//@   prop C47
+//@   assert at call valueFromMD#1 arg1 == hsm.key
+//@   assert at call Match#1 arg1 == v && ok
+//@   assert at return 1 !ok && !result
+//@   assert at return 2 ok && result == ((lastret("Match") == 1) != hsm.invert)
+
+// Range: the value must parse as a base-10 int64 inside [start, end); a present
+// header whose value does not parse, or lies outside, gives invert.
+//@ func (*HeaderRangeMatcher).Match
+//@   prop C47
+//@   assert at call valueFromMD#1 arg1 == hrm.key
+//@   assert at call ParseInt#1 arg0 == v && arg1 == 10 && arg2 == 64 && ok
+//@   ensures implies(!haskey(md, hrm.key), !result && ncalls("ParseInt") == 0)
+//@   ensures implies(haskey(md, hrm.key), result == ((lastret("ParseInt.err") == 0 && lastret("ParseInt") >= Z(hrm.start) && lastret("ParseInt") < Z(hrm.end)) != hrm.invert))
+
+//@ func (*HeaderPresentMatcher).Match
+//@   prop C47
+//@   assert at call valueFromMD#1 arg1 == hpm.key
+//@   assert at return 1 result == ((ok && len(vs) > 0) == hpm.present)
+
+//@ func NewHeaderPresentMatcher
+//@   prop C47
+//@   ensures result != nil && result.key == key && result.present == (present != invert)
